@@ -367,6 +367,110 @@ func guarded(f func() error) (err error, panicked bool, hang bool, msg string) {
 	return
 }
 
+// seqCall performs one call of the sequence alphabet on the tiny structures.
+func seqCall(tx *nutsdb.Tx, name string) error {
+	b, k := "b", []byte("k")
+	var err error
+	switch name {
+	case "RPop":
+		_, err = tx.RPop(b, k)
+	case "LPop":
+		_, err = tx.LPop(b, k)
+	case "LRem":
+		_, err = tx.LRem(b, k, 0, []byte("a"))
+	case "LTrim":
+		err = tx.LTrim(b, k, 0, 0)
+	case "LSet":
+		err = tx.LSet(b, k, 0, []byte("z"))
+	case "RPush":
+		err = tx.RPush(b, k, []byte("a"))
+	case "SPop":
+		_, err = tx.SPop(b, k)
+	case "SRem":
+		err = tx.SRem(b, k, []byte("a"))
+	case "SAdd":
+		err = tx.SAdd(b, k, []byte("a"))
+	case "ZPopMax":
+		_, err = tx.ZPopMax(b)
+	case "ZPopMin":
+		_, err = tx.ZPopMin(b)
+	case "ZRem":
+		err = tx.ZRem(b, "k")
+	case "ZRemRangeByRank":
+		err = tx.ZRemRangeByRank(b, 1, -1)
+	case "ZAdd":
+		err = tx.ZAdd(b, k, 1, []byte("v"))
+	case "Put":
+		err = tx.Put(b, k, []byte("v"), 0)
+	case "Delete":
+		err = tx.Delete(b, k)
+	default:
+		fmt.Fprintln(os.Stderr, "replay: unknown sequence call", name)
+		os.Exit(2)
+	}
+	return err
+}
+
+// runSeq: a fresh database with a one-element list, set and sorted set and one
+// key; the calls of the sequence in one write transaction; Commit; reopen.
+func runSeq(c tcall, dir string, panics *int) hx.Ev {
+	ev := hx.Ev{"op": "call", "m": c.M, "life": c.Life, "args": c.Args, "panic": false, "commitpanic": false, "hang": false, "err": false, "msg": ""}
+	os.RemoveAll(dir)
+	defer os.RemoveAll(dir)
+	opt := nutsdb.DefaultOptions
+	opt.Dir = dir
+	opt.SegmentSize = 4096
+	db, err := nutsdb.Open(opt)
+	if err != nil {
+		fmt.Fprintln(os.Stderr, "replay: open failed:", err)
+		os.Exit(2)
+	}
+	db.Update(func(tx *nutsdb.Tx) error {
+		tx.Put("b", []byte("k"), []byte("v"), 0)
+		tx.RPush("b", []byte("k"), []byte("a"))
+		tx.SAdd("b", []byte("k"), []byte("a"))
+		tx.ZAdd("b", []byte("k"), 1, []byte("v"))
+		return nil
+	})
+	tx, err := db.Begin(true)
+	if err != nil {
+		os.Exit(2)
+	}
+	for _, name := range c.Args {
+		name := name
+		e, p, h, msg := guarded(func() error { return seqCall(tx, name) })
+		if e != nil {
+			ev["err"] = true
+		}
+		if p || h {
+			ev["panic"], ev["hang"], ev["msg"] = p, h, name+": "+msg
+			*panics++
+			return ev
+		}
+	}
+	_, cp, ch, cmsg := guarded(func() error { return tx.Commit() })
+	if cp || ch {
+		ev["commitpanic"], ev["msg"] = true, "Commit: "+cmsg
+		*panics++
+		return ev
+	}
+	guarded(func() error { return tx.Rollback() })
+	// what was committed must not make the next Open panic either
+	guarded(func() error { return db.Close() })
+	_, op, oh, omsg := guarded(func() error {
+		d2, e := nutsdb.Open(opt)
+		if e == nil {
+			d2.Close()
+		}
+		return e
+	})
+	if op || oh {
+		ev["commitpanic"], ev["msg"] = true, "Open after Commit: "+omsg
+		*panics++
+	}
+	return ev
+}
+
 func runTotal(in, out, tmp, summary string) {
 	f, err := os.Open(in)
 	if err != nil {
@@ -418,6 +522,10 @@ func runTotal(in, out, tmp, summary string) {
 	for ci, c := range calls {
 		if ci%150 == 149 {
 			fresh()
+		}
+		if c.M == "Seq" {
+			rec.Emit(runSeq(c, fmt.Sprintf("%s/seq-%d", tmp, ci), &panics))
+			continue
 		}
 		ev := hx.Ev{"op": "call", "m": c.M, "life": c.Life, "args": c.Args, "panic": false, "commitpanic": false, "hang": false, "err": false, "msg": ""}
 		a := &targs{a: c.Args}
